@@ -58,6 +58,9 @@ macro_rules! checksum_row {
 pub const TOKENS: [&str; 5] = ["a", "0", "x.y_1", "é", "Ab.C"];
 /// free text that collides with a keyword of the same family in ANOTHER letter case, or carries upper-case letters
 /// (a reader that folds case to recognise keywords must not fold the text it passes through)
+/// free text that is a keyword of a NEIGHBOURING family (the Origin categories, alone and in front of ", "): a reader that
+/// borrows another field's helper strips it
+pub const CROSS_TEXTS: [&str; 6] = ["upstream", "upstream, 2.0", "vendor, commit:abc", "backport", "other", "commit"];
 pub const CASE_TEXTS: [&str; 7] = ["No", "NO", "Not-Needed", "Yes", "Commit:ABC", "Vendor", "https://Example.COM/Ticket/Display.html?Id=42"];
 pub const SIZES: [usize; 4] = [0, 1, 42, usize::MAX];
 
@@ -416,7 +419,7 @@ pub fn rows() -> Vec<TypeRow> {
         v.push(record_row!(Forwarded, "dep3::Forwarded",
             values = {
                 let mut out = vec![Forwarded::No, Forwarded::NotNeeded];
-                for t in TOKENS.iter().chain(["yes", "https://example.com/bug/1"].iter()).chain(CASE_TEXTS.iter()) {
+                for t in TOKENS.iter().chain(["yes", "https://example.com/bug/1"].iter()).chain(CASE_TEXTS.iter()).chain(CROSS_TEXTS.iter()).chain(["commit:abc"].iter()) {
                     out.push(Forwarded::Yes(t.to_string()));
                 }
                 out
@@ -432,7 +435,7 @@ pub fn rows() -> Vec<TypeRow> {
                     out.push(Origin::Commit(t.to_string()));
                     out.push(Origin::Other(t.to_string()));
                 }
-                for t in CASE_TEXTS {
+                for t in CASE_TEXTS.iter().chain(["no", "not-needed", "upstream", "vendor"].iter()) {
                     out.push(Origin::Other(t.to_string()));
                 }
                 out
@@ -445,12 +448,12 @@ pub fn rows() -> Vec<TypeRow> {
                     out.push(AppliedUpstream::Commit(t.to_string()));
                     out.push(AppliedUpstream::Other(t.to_string()));
                 }
-                for t in CASE_TEXTS {
+                for t in CASE_TEXTS.iter().chain(CROSS_TEXTS.iter()).chain(["no", "not-needed"].iter()) {
                     out.push(AppliedUpstream::Other(t.to_string()));
                 }
                 out
             },
-            canonical = ["commit:abc123", "https://example.com/c/1", "1.2.3"]));
+            canonical = ["commit:abc123", "https://example.com/c/1", "1.2.3", "upstream", "vendor, commit:abc", "upstream, 2.0"]));
         v.push(TypeRow { ty: "dep3::lossless::PatchHeader origin (category, Origin)", n_values: origin_row::n, value: origin_row::value_lossless, canonical: origin_row::CANONICAL, reprint: origin_row::reprint_lossless, keywords: &[], case_insensitive: false, filter: None });
         v.push(TypeRow { ty: "dep3::lossy::PatchHeader origin (category, Origin)", n_values: origin_row::n, value: origin_row::value_lossy, canonical: origin_row::CANONICAL, reprint: origin_row::reprint_lossy, keywords: &[], case_insensitive: false, filter: None });
     }
